@@ -58,6 +58,10 @@ def obligations(tier):
                 if status == 'bycode' and suffix not in ('', '; charset=utf-8'):
                     continue
                 obs.append({'h': 'http', 'integ': integ, 'base': base, 'suffix': suffix, 'body': body, 'status': status})
+        for base in BASES:
+            if base not in DOCUMENTED:
+                # the refusal does not depend on the body: an undecodable body with a media type that is refused anyway
+                obs.append({'h': 'http', 'integ': integ, 'base': base, 'suffix': '', 'body': 'nonutf8', 'status': 'default'})
     for integ, target, nep in it.product(('flask', 'aiohttp'), (0, 1, 2), (2, 3)):
         if target >= nep:
             continue
@@ -112,9 +116,14 @@ BODY_TEXT = {
     'notif': '{"jsonrpc": "2.0", "method": "echo", "params": [5]}',
     'batch': '[{"jsonrpc": "2.0", "id": 1, "method": "echo", "params": [5]}, {"jsonrpc": "2.0", "id": 2, "method": "fail"}]',
     'garbage': '{"jsonrpc": ',
+    'nonutf8': b'\xff\xfe{"jsonrpc"',       # not decodable as UTF-8: only sent with media types that must be refused anyway
 }
 WANT_CODES = {'ok': (0,), 'fail': (2000,), 'notif': None, 'batch': (0, 2000), 'garbage': (-32700,)}
 WANT_RUNS = {'ok': 1, 'fail': 1, 'notif': 1, 'batch': 2, 'garbage': 0}
+
+
+def _bytes(body):
+    return body if isinstance(body, bytes) else body.encode()
 
 
 def _media_type(header):
@@ -155,7 +164,7 @@ def h_http(ob):
         ref = pjrpc.server.Dispatcher()
         ref.add(r_echo, name='echo')
         ref.add(r_fail, name='fail')
-        ref_out = ref.dispatch(body)
+        ref_out = None if isinstance(body, bytes) else ref.dispatch(body)
         try:
             if integ == 'werkzeug':
                 status, ctype, text = _werkzeug(env, header, body, echo, fail)
@@ -225,7 +234,7 @@ def h_endpoints(ob):
                         rpc.add_endpoint(pfx).add(mk(pfx, False), name='where')
                     rpc.init_app(app)
                     client = app.test_client()
-                resp = client.post(path, data=body.encode(), headers={'Content-Type': 'application/json'})
+                resp = client.post(path, data=_bytes(body), headers={'Content-Type': 'application/json'})
                 status, text = resp.status_code, resp.get_data(as_text=True)
             else:
                 status, text = _aiohttp_routed(env, PREFIXES[:nep], path, body, mk)
@@ -261,7 +270,7 @@ def _aiohttp_routed(env, prefixes, path, body, mk):
             app.add_endpoint(pfx).add(mk(pfx, True), name='where')
         loop = asyncio.get_running_loop()
         payload = streams.StreamReader(mock.Mock(_reading_paused=False), 2 ** 16, loop=loop)
-        payload.feed_data(body.encode())
+        payload.feed_data(_bytes(body))
         payload.feed_eof()
         req = make_mocked_request('POST', path, headers={'Content-Type': 'application/json'}, payload=payload, app=app.app)
         match = await app.app.router.resolve(req)
@@ -281,7 +290,7 @@ def _werkzeug(env, header, body, echo, fail):
         app = integ.JsonRPC('/api')
         app.dispatcher.add(echo, name='echo')
         app.dispatcher.add(fail, name='fail')
-        environ = EnvironBuilder(method='POST', path='/api', data=body.encode()).get_environ()
+        environ = EnvironBuilder(method='POST', path='/api', data=_bytes(body)).get_environ()
         environ.pop('CONTENT_TYPE', None)
     if header is not None:
         environ['CONTENT_TYPE'] = header
@@ -302,7 +311,7 @@ def _flask(env, header, body, echo, fail, status_by_error):
         rpc.init_app(app)
         client = app.test_client()
     headers = {} if header is None else {'Content-Type': header}
-    resp = client.post('/api', data=body.encode(), headers=headers)
+    resp = client.post('/api', data=_bytes(body), headers=headers)
     return resp.status_code, resp.headers.get('Content-Type'), resp.get_data(as_text=True)
 
 
@@ -320,7 +329,7 @@ def _aiohttp(env, header, body, echo, fail, status_by_error):
         app.dispatcher.add(_acoro(fail), name='fail')
         loop = asyncio.get_running_loop()
         payload = streams.StreamReader(mock.Mock(_reading_paused=False), 2 ** 16, loop=loop)
-        payload.feed_data(body.encode())
+        payload.feed_data(_bytes(body))
         payload.feed_eof()
         headers = {} if header is None else {'Content-Type': header}
         req = make_mocked_request('POST', '/api', headers=headers, payload=payload)
